@@ -1,6 +1,7 @@
 import SeqVerif.Base.Proto
 import SeqVerif.Model.PatternGlob
 import SeqVerif.Model.PatternSpecWith
+import SeqVerif.Model.PatternDigits
 /-!
 Driver for C13.  Byte strings: hex, `_` = empty.  Lists: `,`-separated, `-` = empty list.
 Terms: `*` or `T<hex>` (`T_` = empty text).  Token: `L/<terms>` or `R/<from>/<to>/<incFrom><incTo>` with an end
@@ -14,6 +15,7 @@ Terms: `*` or `T<hex>` (`T_` = empty text).  Token: `L/<terms>` or `R/<from>/<to
   glob <terms> <token>                       -> ok <0|1>              (declarative matcher globB)
   specleaf <token> <value>                   -> ok <0|1>              (SV.Spec.Leaf.valMatch of the shared Spec)
   specleafw <token> <value> num=...          -> ok <0|1>              (SV.Spec.Leaf.valMatchWith, reading = the oracle table)
+  dval <value>                               -> ok <n> | ok none      (digitsNat: unbounded value of an all-digit string)
   wf <terms>                                 -> ok <0|1>              (hypothesis WF of c13_wildcard_iff_glob)
   rcheck <R/...> <token> num=...             -> ok <n|t> <0|1>        (n = numeric search chosen, t = text)
   search <token> <ordered> <base> <dict> num=...   -> ok <tids> | panic
@@ -112,6 +114,12 @@ def step (line : String) : String :=
     match token? tk, bytes? v, numTable? num with
     | some tk, some v, some tab => "ok " ++ fmtBool ((specLeaf [] tk).valMatchWith (mkPf tab) v)
     | _, _, _ => "bad-op"
+  | ["dval", v] =>
+    match bytes? v with
+    | some v => match digitsNat v with
+      | some n => s!"ok {n}"
+      | none => "ok none"
+    | none => "bad-op"
   | ["wf", ts] =>
     match terms? ts with
     | some ts => "ok " ++ fmtBool (wfB ts)
